@@ -313,11 +313,15 @@ def subchecks(tier, seed):
         Sub("tokens", drv_tokens, {"sigma": TOKENS_Q if quick else TOKENS_T, "L": 4, "both_icpt_upto": 3 if quick else 4, "all_flags_upto": 4},
             shard_depth=3, bounds={"alphabet": TOKENS_Q if quick else TOKENS_T, "max_tokens": 4,
                                    "flags": "all 8 subsets when ~ | [ occur", "intercept": "both up to 3 tokens" if quick else "both"}),
-        Sub("corners", drv_corners, {"families": fams, "shapes": 5, "spacings": 2}, shard_depth=3,
-            bounds={"operators": OPS, "empty_sets": EMPTY, "exponents": LITERALS, "strings": STRINGS,
-                    "shapes": SHAPES, "spacings": ["a+b", "a + b"]}),
-        Sub("shapes", drv_shapes, {}, shard_depth=2, bounds={"shapes": UNARY_SHAPES}),
-        Sub("multistage", drv_multistage, {}, shard_depth=2,
+    ] + [
+        Sub("corners-" + fam, drv_corners, {"families": [fam], "shapes": 5, "spacings": 2}, shard_depth=2,
+            bounds={"operators": OPS, "shapes": SHAPES, "spacings": ["a+b", "a + b"],
+                    "operands": {"empty-left": [EMPTY, PLAIN + EMPTY], "empty-right": [PLAIN, EMPTY], "exponent": LITERALS,
+                                 "string": STRINGS, "dot": "'.' in 7 x 6 operand forms"}[fam]})
+        for fam in fams
+    ] + [
+        Sub("shapes", drv_shapes, {}, shard_depth=1, bounds={"shapes": UNARY_SHAPES}),
+        Sub("multistage", drv_multistage, {}, shard_depth=1,
             bounds={"operators": OPS, "operands": MS_OPERANDS, "shapes": MS_SHAPES, "flag_sets": [list(f) for f in MS_FLAGS]}),
     ]
     if quick:
